@@ -55,6 +55,15 @@ CHECKS["C08"] = dict(
     text="Exhaustive over all chains of length <= 2 (quick) / 3 (thorough) of the five formats on the residue-grid cue sets, two passes each; random chains up to length 6 over random sets (printable Unicode and metacharacter texts, up to 10 cues, 1-3 languages on DFXP/SAMI chains) beyond. Each hop uses pycaption's own writer and reader; the hop that breaks is named by the verdict.",
     design="4 C08")
 
+CHECKS["C09"] = dict(
+    technique="TLA+ spec Session.tla: TLC explores every short history of the object-graph design model (MC_Session: reader stash, shared default styles, open_span) against Isolation / OutputsAreFunctions and judges, step by step, recorded histories of real read/build/write/edit calls on shared and fresh objects (Trace_Session); references come from a fresh interpreter per term under other hash seeds",
+    text="Exhaustive over all histories of <= 3 (quick) / 4 (thorough) operations of the design model, each replayed on real objects under five casts (readers, documents, API-built sets incl. an unclosed span and a px layout that makes writers raise, writers); random histories of 12-20 steps over 14 documents, 5 built sets and 8 writers x option sets beyond. After every step TLC compares the digest of every live set (input unchanged, also when the writer raises) and of every output (byte-identical to the pristine process) with the specification's state.",
+    design="4 C09")
+CHECKS["C10"] = dict(
+    technique="TLA+ spec Session.tla (same machinery as C09, read/edit clauses): MC_Session design model checked by TLC; recorded histories judged step by step by Trace_Session against dumps computed in pristine interpreters under other hash seeds",
+    text="Exhaustive over all histories of <= 3 (quick) / 4 (thorough) operations of the design model under five casts, random 12-20 step histories beyond (reader objects reused and fresh, 14 documents of six formats incl. 4-language SAMI, edits add_style / caption time / node text / caption style / retime). Every set returned by a read must equal the dump of the same term in a fresh interpreter; every edit must change only its own set.",
+    design="4 C10")
+
 NOT_YET = {}
 
 
